@@ -42,6 +42,7 @@ def tool_run(main_path: str, scratch: str, want_strings: bool):
     res = {"acts": {}}
     out, err = E.ls_real(main_path, "", timeout=36000)
     res["acts"]["ls-root"] = "err:" + err if err else "ok"
+    res["ls_bytes"] = len(out or "")
     names = []
     if not err:
         for l in out.split("\n")[2:4]:
@@ -121,6 +122,15 @@ def spec_files(spec: dict):
         img = bytearray(img)
         info["_spec"] = spec
         apply_patches(img, spec["patches"], rng, "akai", info)
+        return {"x.img": bytes(img)}, "x.img"
+    if fam == "roland-dense":
+        # every pointer table full of valid pointers (KF-C13-roland-pointer-fanout): `export` writes one file per
+        # (volume, performance, patch, sample of the patch) - the product of the fan-outs, not the size of the image
+        nv, npf, npa, npt = spec["nv"], spec["npf"], spec["npa"], spec["npt"]
+        smp = {k: GR.Sample("S%d" % k, GR.random_words(rng, 30), mode=0) for k in range(4 * npt)}
+        disc = GR.Disc([GR.Volume("V%d" % v, list(range(npf))) for v in range(nv)], {i: GR.Performance("P%d" % i, list(range(npa))) for i in range(npf)},
+                       {i: GR.Patch("Q%d" % i, list(range(npt))) for i in range(npa)}, {i: GR.Partial("R%d" % i, [4 * i, 4 * i + 1, 4 * i + 2, 4 * i + 3]) for i in range(npt)}, smp, table_layout="compact")
+        img, _ = GR.serialize(disc, rng)
         return {"x.img": bytes(img)}, "x.img"
     if fam == "akai-alias":
         # every entry of a k-sector directory names ONE m-sector file (KF-C13-aliased-entries): the work `export` does
@@ -289,6 +299,22 @@ def apply_patch(img: bytearray, kind, rng, fam: str, info: dict):
                 start = rng.randrange(2, 65527 - n)
                 for j in range(n):
                     put16(img, FAT + 2 * (start + j), start + (j + 1) % n)
+            elif kind == "perfdir-name":
+                # a performance directory record whose name does not decode, with the orphan search forced on: the
+                # search reads the directory sequentially and resumes 16 bytes into the record (model: `perfScan`)
+                put16(img, 278, 0x1FF)
+                k = rng.randrange(0, 3)
+                img[GR.DIR["perf"] + 32 * k + rng.randrange(0, 4)] = rng.choice([0x80, 0xC1, 0xFF])
+                if rng.random() < 0.5:
+                    img[GR.DIR["perf"] + 32 * k + 16 + 3] = 0x00  # the second half decodes as a name: the scan stays misaligned
+                    img[GR.DIR["perf"] + 32 * k + 16 + 5] = 0x00
+            elif kind == "fat-descending":
+                # k -> k-1 -> ... -> start (END): every head below re-walks the tail unless the decoder joins resolved chains (D20)
+                n = rng.choice([60000, 30000, 64000])
+                start = rng.randrange(2, 65520 - n)
+                put16(img, FAT + 2 * start, 0xFFFF)
+                for j in range(1, n):
+                    put16(img, FAT + 2 * (start + j), start + j - 1)
             elif kind == "counts":
                 off = 276 + 2 * rng.randrange(0, 5)
                 put16(img, off, rng.choice([0, 1, 0x7FFF, 0xFFFF, rng.randrange(65536)]))
@@ -390,6 +416,31 @@ def cdda_files(spec, rng):
     elif kind == "long-blank-title":
         n = spec["n"]
         lines[2] = '    TITLE "a' + " " * n + 'b"'
+    elif kind == "long-shared-title":
+        # three tracks of ONE kilobyte-long title: the duplicates are numbered, which splits each name at its L/R ending
+        # (D21: the expression backtracked quadratically over runs of blanks and hyphens)
+        n = spec["n"]
+        title = ["a" + "- " * (n // 2) + "x", "a" + " " * n + "x" + " " * n + "R", "-" * n + "x"][spec["id"] % 3]
+        lines = ['FILE "x.bin" BINARY']
+        ntr = 3
+        for t in range(1, ntr + 1):
+            lines += [f"  TRACK {t:02d} AUDIO", f'    TITLE "{title}"', f"    INDEX 01 00:{2 * (t - 1):02d}:00"]
+        nbytes = 2352 * 75 * 2 * ntr
+    elif kind == "overlapping-tracks":
+        # INDEX positions alternate between the start and the end of the bin: every other track names (almost) the
+        # whole bin, so `export` writes tracks/2 x bin bytes (the CDDA face of KF-C13-aliased-entries)
+        n = spec["n"]
+        lines = ['FILE "x.bin" BINARY']
+        for t in range(1, n + 1):
+            lines += [f"  TRACK {t:02d} AUDIO", f"    INDEX 01 00:{0 if t % 2 else 3:02d}:00"]
+        nbytes = 2352 * 75 * 4
+    elif kind == "wide-table":
+        # one very long title among many rows: `ls` pads every row to the widest name (KF-C13-listing-width)
+        n = spec["n"]
+        lines = ['FILE "x.bin" BINARY']
+        for t in range(1, n + 1):
+            lines += [f"  TRACK {t:02d} AUDIO"] + (['    TITLE "' + "w" * (25 * n) + '"'] if t == 1 else []) + [f"    INDEX 01 00:00:{t % 75:02d}"]
+        nbytes = 2352 * 80
     elif kind == "long-hyphen-title":
         n = spec["n"]
         lines[2] = '    TITLE "a' + "- " * (n // 2) + 'L x"'
@@ -458,11 +509,13 @@ def make_specs(ctx, rng, full: bool):
     for k in range(2 if not full else 8):
         add(family="rand", size=0, prefix="sparse-roland", noise=rng.choice([0, 200, 5000, 40000]))
     akai_kinds = ["phantom-chain", "truncate", "sat-special", "sat-link", "sat-2cycle", "sat-rho", "sat-runaway", "sat-noise", "psize", "volentry", "volstart", "dir", "filehdr", "burst"]
-    rol_kinds = ["key-interleave", "phantom-chain", "truncate", "fat-special", "fat-link", "fat-2cycle", "fat-selfloop", "fat-noise", "fat-longcycle", "counts", "ptrlist", "partial", "samplepar", "sampledir", "burst"]
+    rol_kinds = ["key-interleave", "phantom-chain", "truncate", "fat-special", "fat-link", "fat-2cycle", "fat-selfloop", "fat-noise", "fat-longcycle", "fat-descending", "perfdir-name", "counts", "ptrlist", "partial", "samplepar", "sampledir", "burst"]
     for pv in (0, 1, 0xFFFF):
         for pw in ("first", "last"):
             add(family="akai", patches=["psize"], pvalue=pv, pwhich=pw)
     add(family="akai-alias", k=6, m=24)
+    if full:
+        add(family="roland-dense", nv=4, npf=64, npa=32, npt=88)
     reps = ctx.n(4, 60)
     for kind in akai_kinds:
         for _ in range(reps):
@@ -476,7 +529,7 @@ def make_specs(ctx, rng, full: bool):
     for _ in range(ctx.n(6, 120)):
         add(family="roland", patches=[rng.choice(rol_kinds) for _ in range(rng.randint(1, 3))])
     for kind, ns in (("clean", [0]), ("long-blank-title", [300, 3000, 6000]), ("long-hyphen-title", [300, 3000, 6000]), ("long-dot-title", [300, 3000, 6000]),
-                     ("long-quote-line", [300, 6000]), ("long-blank-line", [300, 6000]), ("many-tracks", [99, 600, 12000] + ([3000, 20000] if full else [])), ("many-blank", [5000, 600000]),
+                     ("long-shared-title", [3000, 40000, 40000, 40000] + ([120000] if full else [])), ("overlapping-tracks", [400]), ("wide-table", [1200]), ("long-quote-line", [300, 6000]), ("long-blank-line", [300, 6000]), ("many-tracks", [99, 600, 12000] + ([3000, 20000] if full else [])), ("many-blank", [5000, 600000]),
                      ("huge-index", [0]), ("huge-numbers", [5, 50, 400]), ("no-bin", [0]), ("short-bin", [0, 0])):
         for n in ns:
             add(family="cdda", kind=kind, n=n, crlf=rng.random() < 0.3)
@@ -492,6 +545,8 @@ def spec_kind(spec):
         return "cdda-" + spec["kind"]
     if spec["family"] == "akai-alias":
         return "akai-alias-entries"
+    if spec["family"] == "roland-dense":
+        return "roland-dense-pointers"
     return spec["family"] + "-" + "+".join(sorted(set(spec["patches"])))
 
 
@@ -523,7 +578,8 @@ def run(ctx, rep: Report, deep: bool = False):
             long_cue = spec["family"] == "cdda" and spec.get("n", 0) > 100  # also: names beyond the file-system limit fail with OSError in the real tool only
             # the 20000-cluster phantom chain of `key-interleave` is left to the oracle as well (the model walks lists)
             # and so is the aliased-entries image: its tie would hold 400 MB of output in the measuring process
-            heavy = "key-interleave" in spec.get("patches", []) or spec["family"] == "akai-alias"
+            # and the 60000-cluster descending chain (the model keeps the re-walking decoder, quadratic over lists)
+            heavy = "key-interleave" in spec.get("patches", []) or "fat-descending" in spec.get("patches", []) or spec["family"] in ("akai-alias", "roland-dense")
             tie = ctx.model_available and not long_cue and not heavy and (spec["id"] % (1 if spec["family"] != "roland" else 2) == 0)
             meta[spec["id"]] = dict(spec=spec, size=size, dir=d, main=mp, tie=tie)
             pool.submit(spec["id"], (lambda mp=mp, d=d, tie=tie: tool_run(mp, d, tie)), cpu_bound(size), mem_bound(size), 4 * cpu_bound(size) + 20)
@@ -559,6 +615,8 @@ def run(ctx, rep: Report, deep: bool = False):
             worst_out = max(worst_out, r.get("out_bytes", 0) / out_bound(size))
             if r.get("out_bytes", 0) > out_bound(size):
                 rep.findings.append(Finding("output-beyond-bound:" + kind, detail))
+            if r.get("ls_bytes", 0) > out_bound(size):
+                rep.findings.append(Finding("listing-beyond-bound:" + kind, detail))
             if m["tie"]:
                 try:
                     ex = open(os.path.join(m["dir"], "export.txt")).read()
